@@ -36,13 +36,13 @@ pub(in crate::primitives::line) struct ParallelsIterator {
     /// Accumulated thickness.
     ///
     /// The thickness accumulator is increased each time a parallel line is returned.
-    thickness_accumulator: i32,
+    thickness_accumulator: i64,
 
     /// Thickness threshold.
     ///
     /// The thickness threshold is compared with the thickness accumulator to stop the iterator once
     /// the desired line thickness is reached.
-    thickness_threshold: i32,
+    thickness_threshold: i64,
 
     /// Changes the sign of initial error variables.
     ///
@@ -93,9 +93,12 @@ impl ParallelsIterator {
 
         // Thickness threshold, taking into account that fewer pixels are required to draw a
         // diagonal line of the same perceived width.
-        let thickness_threshold = (thickness * 2).pow(2) * line.delta().length_squared();
-        let thickness_accumulator =
-            (parallel_parameters.error_step.minor + parallel_parameters.error_step.major) / 2;
+        // Note: 64 bit integers are required, because the threshold is the product of two squares.
+        let thickness_threshold =
+            (i64::from(thickness) * 2).pow(2) * i64::from(line.delta().length_squared());
+        let thickness_accumulator = i64::from(
+            (parallel_parameters.error_step.minor + parallel_parameters.error_step.major) / 2,
+        );
 
         // Determine if the signs in the error calculation should be flipped.
         let flip = perpendicular_parameters.position_step.minor
@@ -173,7 +176,8 @@ impl Iterator for ParallelsIterator {
 
         let ret = match point {
             BresenhamPoint::Normal(point) => {
-                self.thickness_accumulator += self.perpendicular_parameters.error_step.minor;
+                self.thickness_accumulator +=
+                    i64::from(self.perpendicular_parameters.error_step.minor);
 
                 // Normal lines are the same length as the original primitive line.
                 (
@@ -182,7 +186,8 @@ impl Iterator for ParallelsIterator {
                 )
             }
             BresenhamPoint::Extra(point) => {
-                self.thickness_accumulator += self.perpendicular_parameters.error_step.major;
+                self.thickness_accumulator +=
+                    i64::from(self.perpendicular_parameters.error_step.major);
 
                 // Extra lines are 1 pixel shorter than normal lines.
                 (
